@@ -160,6 +160,38 @@ def check_program(p, st):
                 out = e
             if out != raw:
                 viol('unpack-pack', 'unpack(%r).pack() = %r' % (raw, out), {'op': 'unpack', 'raw': raw})
+        # ---- histories on ONE packet object: the shared integer is already populated when pack() runs
+        #      (unpack -> set one field -> pack;  pack -> set one field -> pack)
+        for base in (b'\xff' * nbytes, b'\x00' * nbytes, bytes([0xa5] * nbytes)):
+            raw = (b'\x7e' + base + b'\x12\x34') if emb else base
+            cur = ref_slices(base, widths)
+            for i, wd in enumerate(widths):
+                for v in (0, 1, (1 << wd) - 1, (1 << wd) >> 1):
+                    vals = list(cur)
+                    vals[i] = v
+                    exp = ref_pack(vals, widths)
+                    expraw = (b'\x7e' + exp + b'\x12\x34') if emb else exp
+                    st.inc('evaluations')
+                    try:
+                        pk = K.unpack(raw)
+                        setattr(pk, names[i], v)
+                        out1 = pk.pack()
+                        # and once more from a packed packet: raise the field to all-ones, pack, lower it again, pack
+                        setattr(pk, names[i], (1 << wd) - 1)
+                        pk.pack()
+                        setattr(pk, names[i], v)
+                        out2 = pk.pack()
+                    except Exception as e:
+                        viol('history-raises', 'unpack(%r); set %s=%r; pack() raised %r' % (raw, names[i], v, e), {'op': 'history', 'raw': raw, 'field': i, 'value': v})
+                        break
+                    if out1 != expraw:
+                        viol('stale-bits after unpack', 'p = unpack(%r); p.%s = %r; p.pack() = %r, expected %r' % (raw, names[i], v, out1, expraw),
+                             {'op': 'history', 'raw': raw, 'field': i, 'value': v})
+                        break
+                    if out2 != expraw:
+                        viol('stale-bits after pack', 'p = unpack(%r); p.%s = all-ones; p.pack(); p.%s = %r; p.pack() = %r, expected %r' % (raw, names[i], names[i], v, out2, expraw),
+                             {'op': 'history', 'raw': raw, 'field': i, 'value': v})
+                        break
         # ---- pack: per field value set with neighbours all-zeros / all-ones
         for i, wd in enumerate(widths):
             for v in (0, 1, (1 << wd) - 1, 1 << wd, (1 << wd) + 1, -1, -(1 << (wd - 1)), 3 << wd):
@@ -208,7 +240,8 @@ def run(tier):
         'rule': 'all 128 compositions of 8 bits (alone and between Int(1)/Int(2)), %s compositions of 16 bits, the 24/32/40/48-bit family '
                 '(<=2 parts, a 1-bit field at every position, a field straddling every byte boundary); unpack: all 256 patterns (1 byte) / '
                 'walking-one, walking-zero, alternating and byte-lane patterns; pack: per field {0,1,2^w-1,2^w,2^w+1,-1,-2^(w-1),3*2^w} with '
-                'neighbours all-zeros and all-ones; all runs of total 1..17 bits not a multiple of 8 must fail at class definition' %
+                'neighbours all-zeros and all-ones; histories on one packet (unpack, set a field, pack; raise it, pack, lower it, pack); '
+                'all runs of total 1..17 bits not a multiple of 8 must fail at class definition' %
                 ('all 32768' if tier == 'thorough' else 'all 576 <=4-part'),
         'exhaustive': True,
         'bounds': {'tier': tier},
